@@ -153,7 +153,16 @@ class Builder(NullCell):
         i = self.available_bytes
         if len(value) <= i:
             return self.store_bytes(value)
-        return self.store_bytes(value[:i]).store_ref(Builder().store_snake_bytes(value[i:]).end_cell())
+        # the continuation cells (127 bytes each) are built from the end of the chain, without recursion:
+        # a chain may be as deep as cells can be (1023), which is deeper than the interpreter's recursion limit allows
+        rest = value[i:]
+        tail = None
+        for j in reversed(range(0, len(rest), 127)):
+            cell = Builder().store_bytes(rest[j: j + 127])
+            if tail is not None:
+                cell.store_ref(tail)
+            tail = cell.end_cell()
+        return self.store_bytes(value[:i]).store_ref(tail)
 
     def store_snake_string(self, value: str, need_prefix: bool = False):
         value = value.encode()
